@@ -15,7 +15,7 @@ if [ -f "$D/demo_test.go" ]; then
   if go test -count=1 -vet=off -run "$(grep -o 'func Test[A-Za-z0-9_]*' zz_demo_test.go | sed 's/func //' | paste -sd'|')" . >$SCR/demo_clean.log 2>&1; then echo "demo on pristine tree: PASS"; else echo "demo on pristine tree: FAIL (unexpected)"; tail -5 $SCR/demo_clean.log; fi
   rm -f zz_demo_test.go
 fi
-if ! git apply "$D/patch.diff"; then echo "PATCH DOES NOT APPLY"; exit 2; fi
+if ! git apply "$D/patch.diff" 2>/dev/null; then if ! git apply --3way "$D/patch.diff" 2>/dev/null; then echo "PATCH DOES NOT APPLY"; exit 2; fi; git reset -q; fi
 if ! go build ./... 2>$SCR/build.log; then echo "DOES NOT COMPILE"; cat $SCR/build.log; exit 2; fi
 python3 /tmp/mut/baseline.py $SCR/repo | head -3
 if [ -f "$D/demo_test.go" ]; then
